@@ -105,4 +105,14 @@ SaveVerdict(root, mem, stream) ==
           ELSE IF r.p # Len(mem) + 1 THEN "bad:output is more than one object"
           ELSE IF r.v # doc THEN "bad:an independent decoder recovers different data"
           ELSE "bad:not the most compact encoding"
+-----------------------------------------------------------------------------
+(* Wide string members: a std::u16string / std::u32string member holds the same text as a std::string member and is   *)
+(* written as the same UTF-8 string, so the wide variant of a script denotes the same document and loads back the     *)
+(* same text (the harness reports wide strings as the UTF-8 text they hold).                                          *)
+RECURSIVE WideOps(_, _)
+WideOp(op, wt) == IF "t" \in DOMAIN op /\ op.t = "str" THEN [op EXCEPT !.t = wt]
+                  ELSE IF "ops" \in DOMAIN op THEN [op EXCEPT !.ops = WideOps(@, wt)] ELSE op
+WideOps(ops, wt) == [i \in 1..Len(ops) |-> WideOp(ops[i], wt)]
+WideRoot(r, wt) == IF r.k = "leaf" THEN (IF r.t = "str" THEN [r EXCEPT !.t = wt] ELSE r) ELSE [r EXCEPT !.ops = WideOps(@, wt)]
+WideTypes == {"u16str", "u32str"}
 =============================================================================
